@@ -31,6 +31,8 @@ def build_session(rng, tmp, kind, metric, ext, rep, tm):
     Z = np.vstack([X, Xu, R])
     if (n + nrest) % 4 == 0:
         Z = Z.astype(np.float32)      # a dataset held in single precision: both routes must evaluate the metric on the same values
+    elif (n + nrest) % 4 == 1:
+        Z = (np.round(Z * 3) + 1).astype(np.int64)      # integer-typed samples on a small grid: their distances are real numbers all the same
     labels_all = np.concatenate([Y, np.zeros(nu, dtype=int), np.array([rng.randrange(int(Y.max()) + 1) for _ in range(nrest)])])
     s.add(Z, "Z")
     s.add(labels_all, "labels")
